@@ -207,6 +207,11 @@ def run(rep, facts, tier):
     from rules.C08 import rule_sort_before_limit
     rule_sort_before_limit(rep, fx, 'R01.8')
 
+    # ------------------------------------------------------------ reception bookkeeping (shared with C03; a necessary condition of C01 as well: the reliable marker
+    # handed to the topic cache is ack_base, so a frontier that runs ahead of what was received or declared unavailable hands over sample n before a lower one)
+    from rdv import report as _report
+    _report.borrow(rep, facts, tier, 'C03', {'R03.1': 'R01.11', 'R03.11': 'R01.12', 'R03.12': 'R01.13'})
+
     # ------------------------------------------------------------ R01.7 (shared with C14 R14.5)
     from rules import numberset
     numberset.run_rule(rep, fx, 'R01.7')
